@@ -282,8 +282,29 @@ impl<'a> G15<'a> {
                 let (s, _) = self.string_arg();
                 match self.rng.below(3) {
                     0 => (format!("(string->vector {})", s), "string->vector"),
-                    1 => (format!("(define {} (vector->string (string->vector {})))", self.target(), s), "vector->string"),
-                    _ => (format!("(define {} (list->string (string->list {})))", self.target(), s), "list->string"),
+                    1 => {
+                        // directly, or with the characters taken through a list (pairs hold their
+                        // elements in heap cells) on the way into the vector
+                        let via = match self.rng.below(4) {
+                            0 => format!("(list->vector (string->list {}))", s),
+                            1 => format!("(apply vector (string->list {}))", s),
+                            2 => format!("(let ((l (string->list {s}))) (if (null? l) (vector) (vector (car l) (car (reverse l)))))", s = s),
+                            _ => format!("(string->vector {})", s),
+                        };
+                        (format!("(define {} (vector->string {}))", self.target(), via), "vector->string")
+                    }
+                    _ => {
+                        let via = match self.rng.below(3) {
+                            0 => format!("(vector->list (string->vector {}))", s),
+                            1 => format!("(reverse (reverse (string->list {})))", s),
+                            _ => format!("(string->list {})", s),
+                        };
+                        if self.rng.chance(1, 3) {
+                            (format!("(define {} (apply string {}))", self.target(), via), "string")
+                        } else {
+                            (format!("(define {} (list->string {}))", self.target(), via), "list->string")
+                        }
+                    }
                 }
             }
             12 => {
